@@ -1,5 +1,7 @@
 
 import Ecal.Lemmas.CascadeLive
+import Ecal.Lemmas.CascadePool
+import Ecal.Props.C09
 import Ecal.Gen.C02
 /-!
 # C02 — waiting on an event returns after its whole cascade, with exactly its errors
@@ -982,6 +984,78 @@ example : wExec.SchedFairFrom 9 ∧ wExec.PoolStartsFrom 9 ∧ wExec.AddsStopAt 
       rw [hs]; rfl
     · exfalso
       exact wExec_no_queued_after_13 n (by omega) hq
+
+/-! ### the pool side of fairness, from C09's theorem
+
+`Ecal.Pool` (C09) models the thread pool step by step (per-worker program counters, the FIFO
+queue, calls in flight); `Conc` abstracts it to "a queued task can be popped by a free worker". The
+two are tied here by a COUPLING of executions — the precisely typed statement of what a refinement
+between the two models has to deliver — and `PoolStartsFrom` is then DERIVED from
+`Ecal.Props.C09.fair_queued_task_started` (machine-checked use of C09's theorem). What is not
+proved is that the two executions of the real system are coupled (a product model of `Ecal.Pool` and
+`Conc` whose projections they are): the coupling is a hypothesis. -/
+
+/-- the coupling of a cascade-level execution `X` with a pool-level execution `Y` of the same run,
+    tick by tick: (1) whenever a task of some cascade is queued in `X`, the pool's queue in `Y` is
+    not empty (`TaskQueue.Push` inside `AddTask`: the pool's queue IS the cascades' queued tasks);
+    (2) a `Pop` taken in `Y` at a tick is the pop of a queued cascade task in `X` at that tick (the
+    task queue hands out a queued task); (3) the pool always has a live worker (it is not resized
+    to zero / joined while cascades run — C02's standing assumption). Only push/pop matter: resize
+    and join events of `Ecal.Pool` are excluded by `CallsStopAt` where the coupling is used. -/
+structure PoolCoupling (X : Exec) (Y : Ecal.Pool.Exec) : Prop where
+  queued : ∀ n, (X.C n).taskQueued → (Y.C n).queue ≠ []
+  pop    : ∀ n, Y.took Ecal.Pool.isPop n → X.tookPop n
+  live   : ∀ n, 0 < (Y.C n).live
+
+/-- non-vacuity of `PoolCoupling`: a coupled pair (Lemmas/CascadePool.lean) — cascade level `cX`
+    (one root, one task, one worker: pushed at tick 2, popped at tick 3, run to the end) and pool level
+    `cY` (`Ecal.Pool`: the worker passes its kill check, `AddTask` pushes at tick 2, the worker pops
+    at tick 3). The task is queued at the cascade level exactly when the pool's queue holds it, the
+    pool's only `Pop` is the cascade's pop at the same tick, the pool keeps its worker. -/
+example : PoolCoupling cX Ecal.Pool.cY ∧ (cX.C 3).taskQueued ∧ Ecal.Pool.cY.took Ecal.Pool.isPop 3 := by
+  refine ⟨⟨?_, ?_, Ecal.Pool.cY_live⟩, ?_, ?_⟩
+  · intro n hq
+    rw [cX_queued_only_at_3 n hq]
+    exact Ecal.Pool.cY_queue_at_3
+  · intro n hp
+    rw [Ecal.Pool.cY_pop_only_at_3 n hp]
+    exact cX_pop_at_3
+  · exact queued_of_pop_enabled (r := 0) (w := 0) (i := 0) (by
+      obtain ⟨r, w, i, he, hs⟩ := cX_pop_at_3
+      have : cX.ev 3 = some (.at 0 (.pop 0 0)) := rfl
+      rw [this] at he; cases he
+      exact hs)
+  · exact ⟨.pop 0 1, rfl, rfl, by decide⟩
+
+/-- **the pool side of fairness follows from C09**: if the cascade-level execution `X` is coupled
+    with a pool-level execution `Y` that is fair in C09's sense (`Ecal.Pool.Exec.Fair`: an enabled
+    pool-internal event — worker steps, the rest of calls in flight, returns of running tasks — is
+    eventually followed by one) and makes no new pool call from tick `N` on, then `X.PoolStartsFrom N`:
+    every queued task is eventually followed by a pop. Proof: `Ecal.Props.C09.fair_queued_task_started`
+    (= `no_stuck_task` + `pop_within_bound`) applied at every tick `n ≥ N`. -/
+theorem poolStartsFrom_of_C09 {X : Exec} {Y : Ecal.Pool.Exec} (hc : PoolCoupling X Y) (hf : Y.Fair)
+    {N : Nat} (hN : Y.CallsStopAt N) : X.PoolStartsFrom N := by
+  intro n hn hq
+  have hNn : Y.CallsStopAt n := fun k hk e he => hN k (by omega) e he
+  obtain ⟨m, hm, h⟩ := Ecal.Props.C09.fair_queued_task_started Y hf hNn (hc.queued n hq)
+  rcases h with h | h
+  · exact ⟨m, hm, Or.inl (hc.pop m h)⟩
+  · have := hc.live m
+    omega
+
+/-- **the wait returns — fairness traced back to its sources**: scheduler fairness for the non-pop
+    engine steps of the cascades (`SchedFairFrom`, assumed), a coupled pool execution that is fair in
+    C09's sense and makes no new call after `N` (the pop side is then C09's theorem), no work added
+    after `N`, all monitors handed over at `N` ⇒ every cascade completes: every waiter released with
+    an exact report, every registered finish handler run once. -/
+theorem wait_returns_with_C09_pool (X : Exec) (Y : Ecal.Pool.Exec) {N : Nat} (hs : X.SchedFairFrom N)
+    (hc : PoolCoupling X Y) (hf : Y.Fair) (hY : Y.CallsStopAt N) (ha : X.AddsStopAt N) (hN : (X.C N).allHanded) :
+    ∃ n, N ≤ n ∧ ∀ r v, (X.C n).view r = some v →
+      (∀ m ∈ v.mons, m.phase.finished = true) ∧ v.posted = 1 ∧
+      (v.waiting = true → v.released = 1 ∧ ((step v .waitReturns).isSome = true ∨ v.waitReturned = true) ∧
+         allErrors v = expectedReport v) ∧
+      (v.handlerReg = true → v.handlerCalls = 1) :=
+  wait_returns_scheduler_and_pool X hs (poolStartsFrom_of_C09 hc hf hY) ha hN
 
 /-- **non-vacuity witness of the liveness theorems** (`fair_run_reaches_quiescence`,
     `wait_returns_fair`, `wait_returns_fair_from`): a concrete, NON-STUTTERING fair execution.
